@@ -70,3 +70,47 @@ func NormalizeComparisonOperators(expr string) string {
 	}
 	return string(result)
 }
+
+// IsVariablePath reports whether expr has the shape of a variable path:
+// an identifier followed by .name and [index] steps (user.name, items[0].title,
+// m['key']). Anything else - literals, unary or unspaced operators - is an
+// expression for the evaluator.
+func IsVariablePath(expr string) bool {
+	expr = strings.TrimSpace(expr)
+	if expr == "" {
+		return false
+	}
+	i := 0
+	ident := func() bool {
+		start := i
+		for i < len(expr) && IsIdentifierChar(rune(expr[i]), i == start) {
+			i++
+		}
+		return i > start
+	}
+	if !ident() {
+		return false
+	}
+	for i < len(expr) {
+		switch expr[i] {
+		case '.':
+			i++
+			start := i
+			for i < len(expr) && IsIdentifierChar(rune(expr[i]), false) {
+				i++
+			}
+			if i == start {
+				return false
+			}
+		case '[':
+			end := strings.IndexByte(expr[i:], ']')
+			if end < 0 {
+				return false
+			}
+			i += end + 1
+		default:
+			return false
+		}
+	}
+	return true
+}
